@@ -57,6 +57,7 @@ class FnInfo:
         self.body_lines = (None, None)
         self.linemap = {}         # generated line -> source line
         self.lost_hints = []
+        self.lost = None
 
 
 def apply_directives(body, directives, unit):
@@ -242,7 +243,7 @@ def apply_directives(body, directives, unit):
         raise TemplateError(f"unknown directive `{key}`")
 
 
-def splice(template_path, repo_root, canary=False):
+def splice(template_path, repo_root, canary=False, quarantine=()):
     """returns (generated_text, fns: list[FnInfo], unit_meta)"""
     lines = open(template_path, encoding="utf-8").read().split("\n")
     unit = {"rules": list(DEFAULT_RULES), "features_on": (), "features_off": ("open-metrics", "loud"), "subs": []}
@@ -310,24 +311,52 @@ def splice(template_path, repo_root, canary=False):
             header_text = "\n".join(out[h:])
             m = re.search(r"\bfn\s+(\w+)", out[h])
             tname = m.group(1)
-            src_path = os.path.join(repo_root, kv["src"])
-            if not os.path.exists(src_path):
-                raise LostAnchor(f"source file {kv['src']} missing")
-            body = Body(Source.get(src_path), kv["fn"], closure=kv.get("closure"))
-            # parameter names must agree with the template header
-            htoks = lex(header_text[header_text.index(m.group(0)):])
-            from lex import param_names
-            hp = param_names(htoks, 0, len(htoks))
-            expected = None
-            for (k_, v_) in directives:
-                if k_ == "params":
-                    expected = [x.strip() for x in v_.split(",") if x.strip()]
-            if expected is None:
-                expected = [p for p in hp if not p.startswith("__")]
-            if [p for p in body.params] != expected:
-                raise LostAnchor(f"{kv['fn']}: real parameters {body.params} differ from the contract's {expected}")
-            apply_directives(body, directives, unit)
-            text, linemap = body.render()
+            oname = kv.get("name", kv["fn"].split(" for ")[-1] + ("::" + kv["closure"] if kv.get("closure") else ""))
+            lost = None
+            body = None
+            try:
+                if oname in quarantine:
+                    raise LostAnchor(quarantine[oname] if isinstance(quarantine, dict) else "quarantined")
+                src_path = os.path.join(repo_root, kv["src"])
+                if not os.path.exists(src_path):
+                    raise LostAnchor(f"source file {kv['src']} missing")
+                body = Body(Source.get(src_path), kv["fn"], closure=kv.get("closure"))
+                # parameter names must agree with the template header
+                htoks = lex(header_text[header_text.index(m.group(0)):])
+                from lex import param_names
+                hp = param_names(htoks, 0, len(htoks))
+                expected = None
+                for (k_, v_) in directives:
+                    if k_ == "params":
+                        expected = [x.strip() for x in v_.split(",") if x.strip()]
+                if expected is None:
+                    expected = [p for p in hp if not p.startswith("__")]
+                if [p for p in body.params] != expected:
+                    raise LostAnchor(f"{kv['fn']}: real parameters {body.params} differ from the contract's {expected}")
+                apply_directives(body, directives, unit)
+                text, linemap = body.render()
+            except LostAnchor as e:
+                # this hole only: the function is emitted with a placeholder body and reported as undecided, so that the
+                # other obligations of the unit are still decided (they only use this function's contract)
+                lost = str(e)
+            if lost is not None:
+                info = FnInfo(oname, [p for p in kv.get("props", "").split(",") if p], kv.get("known"), "body")
+                info.simple = tname
+                info.src = kv["src"]
+                info.qual = kv["fn"] + ("::" + kv["closure"] if kv.get("closure") else "")
+                info.lost = lost
+                info.header_start = h + 1
+                info.start = h + 1
+                info.report = [("LOST", lost[:200])]
+                info.lost_hints = []
+                info.src_first_line = None
+                first = len(out) + 1
+                emit("{ /* QUARANTINED: " + lost.replace("*/", "* /")[:300] + " */ proof { assume(false); } vstd::pervasive::unreached() }")
+                info.body_lines = (first, len(out))
+                info.end = len(out)
+                fns.append(info)
+                pending_tag = None
+                continue
             info = FnInfo(kv.get("name", kv["fn"].split(" for ")[-1] + ("::" + kv["closure"] if kv.get("closure") else "")), [p for p in kv.get("props", "").split(",") if p], kv.get("known"), "body")
             info.simple = tname
             info.src = kv["src"]
@@ -409,6 +438,7 @@ def splice(template_path, repo_root, canary=False):
             if m:
                 info = FnInfo(pending_tag.get("name", m.group(1)), [p for p in pending_tag.get("props", "").split(",") if p],
                               pending_tag.get("known"), "lemma")
+                info.simple = m.group(1)
                 info.start = len(out)
                 info.header_start = len(out)
                 # find the end: the first later line that is exactly `}` at the indentation of the fn line
